@@ -229,8 +229,26 @@ def case_arrays(c):
     return zones, vals
 
 
+def relayout(a, how):
+    """same values, different memory layout (results must not depend on it)"""
+    if how == "F":
+        return np.asfortranarray(a)
+    if how == "T":                       # transposed view of a C array
+        return np.ascontiguousarray(a.T).T if a.ndim == 2 else a
+    if how == "strided" and a.ndim == 2: # every second column of a wider buffer
+        big = np.zeros((a.shape[0], a.shape[1] * 2), dtype=a.dtype)
+        big[:, ::2] = a
+        return big[:, ::2]
+    return a
+
+
 def data_arrays(c, backend="numpy", zchunks=None, vchunks=None):
     zones, vals = case_arrays(c)
+    if backend == "numpy":
+        # the memory layout is derived from the case itself, so replays see the same layout
+        k = (c["h"] * 7 + c["w"] * 3 + len(c.get("zones", []))) % 8
+        zones = relayout(zones, ["C", "F", "C", "T", "C", "strided", "C", "F"][k])
+        vals = relayout(vals, ["C", "C", "F", "T", "C", "C", "strided", "F"][k])
     if backend == "dask":
         import dask.array as da
         zones = da.from_array(zones, chunks=zchunks)
